@@ -1,6 +1,6 @@
 From Coq Require Import ZArith List.
 From PV Require Import Base.U64 E3.E3_Run C01.C01_Model C01.C01_Tac C01.C01_Excl C01.C01_Inv2 C01.C01_I2
-  C01.C01_Handoff C01.C01_Finding C01.C01_Spin_Model C01.C01_Spin_Proofs.
+  C01.C01_Handoff C01.C01_Finding C01.C01_Spin_Model C01.C01_Spin_Proofs C01.C01_Mcs C01.C01_Mcs2.
 Theorem mutex_excl_plain : forall s, reachable s ->
   forall m t1 t2, recursive (mx s m) = false ->
     (cnt (th s t1) m > 0)%nat -> (cnt (th s t2) m > 0)%nat -> t1 = t2.
@@ -51,3 +51,10 @@ Theorem ticket_fifo : forall scr s, tkl_reach scr s ->
     forall q t, q <> p -> kl_tkt s q = Some t -> (kl_serv s < t < kl_next s)%Z.
 Proof. exact ticket_fifo_l. Qed.
 Print Assumptions ticket_fifo.
+Theorem mcs_excl : forall scr s, qsl_reach scr s ->
+  forall p q, t_ins (q_th s p) = true -> t_ins (q_th s q) = true -> p = q.
+Proof. exact mcs_excl_l. Qed.
+Print Assumptions mcs_excl.
+Theorem mcs_locked : forall scr s, qsl_reach scr s -> forall p, t_ins (q_th s p) = true -> q_tail s <> None.
+Proof. exact mcs_locked_l. Qed.
+Print Assumptions mcs_locked.
